@@ -21,16 +21,24 @@ BODIES = {
     "fail_call": ('    fail("explicit failure")\n', False),
     "panic_index": ("    xs = [1, 2, 3]\n    println(xs[7])\n", False),
     "pass_with_output": ('    println("some output")\n    assert_true(True)\n', True),
+    # tests written in the "return a Result and use ?" style (return type Result[None, str])
+    "result_pass": ("    v = parse_positive(3)?\n    assert_eq(v, 3)\n    return Ok(done())\n", True),
+    "result_fail_assert": ("    v = parse_positive(4)?\n    assert_eq(v, 3)\n    return Ok(done())\n", False),
+    "result_fail_err": ("    v = parse_positive(-1)?\n    assert_eq(v, 3)\n    return Ok(done())\n", False),
 }
+RET = {"result_pass": "Result[None, str]", "result_fail_assert": "Result[None, str]", "result_fail_err": "Result[None, str]"}
 MARKERS = {"none": "", "skip": '@skip("not yet")\n', "xfail": '@xfail("known bug")\n', "slow": "@slow\n"}
-HEADER = "from testing import assert, assert_eq, assert_ne, assert_true, assert_false, fail\n\n\n"
+HEADER = (
+    "from testing import assert, assert_eq, assert_ne, assert_true, assert_false, fail\n\n\n"
+    "def done() -> None:\n    pass\n\n\ndef parse_positive(n: int) -> Result[int, str]:\n    if n < 0:\n        return Err(\"negative input\")\n    return Ok(n)\n\n\n"
+)
 
 
 def make_file(funcs):
     """funcs: list of (name, body kind, marker)"""
     src = HEADER
     for name, body, marker in funcs:
-        src += f"{MARKERS[marker]}def {name}() -> None:\n{BODIES[body][0]}\n\n"
+        src += f"{MARKERS[marker]}def {name}() -> {RET.get(body, 'None')}:\n{BODIES[body][0]}\n\n"
     return src
 
 
@@ -119,6 +127,10 @@ def scenarios(tier):
         ("test_i_slow_pass", "pass", "slow"),
         ("test_j_slow_fail", "fail_assert", "slow"),
         ("test_k_unit_output", "pass_with_output", "none"),
+        ("test_l_result_pass", "result_pass", "none"),
+        ("test_m_result_fail_assert", "result_fail_assert", "none"),
+        ("test_n_result_fail_err", "result_fail_err", "none"),
+        ("test_o_result_xfail", "result_fail_assert", "xfail"),
     ]
     flagsets = [[], ["--slow"], ["-k", "slow"], ["-k", "fail"], ["-k", "zzz_nomatch"], ["-k", "test_"], ["-x"], ["--slow", "-k", "slow"], ["-k", "pass"], ["-k", "xfail"]]
     out = []
@@ -199,7 +211,7 @@ def run(tier):
     cov = {
         "evaluations": n_fn,
         "distinct_nontrivial": len(sig_ok),
-        "rule": "an 11-function test file covering body kinds (pass, assert_eq / assert / fail() failure, runtime panic, pass with output) x markers (none, @skip, @xfail, @slow) run "
+        "rule": "a 15-function test file covering body kinds (pass, assert_eq / assert / fail() failure, runtime panic, pass with output, and Result-returning tests that pass / fail an assertion / propagate an Err) x markers (none, @skip, @xfail, @slow) run "
         "under 10 flag sets (none, --slow, -k matching 0 / some / all, -x, --slow with -k), all-green files (exit status 0), and single-function files for the (body x marker) "
         "product (quick: every third; thorough: all, plus all two-function files over 3 bodies x 4 markers with --slow and -x); evaluations = selected test functions judged; "
         "non-trivial = (flag set, file shape) scenarios whose every verdict, count, exit status and execution set matched the reference model",
@@ -213,6 +225,7 @@ def run(tier):
             "reference model = tooling/how-to/testing.md: selection by -k substring and --slow, @skip not executed, @xfail inverts, exit status non-zero iff a selected test FAILED or XPASSed, tests reported in file order, -x stops after the first failure",
             "a test 'was executed' iff the runner created its harness directory target/incan_tests/<name>",
             "real `cargo test` (dev profile) is used for every executed function",
+            "a test declared `-> Result[None, str]` that returns Err is expected to be FAILED (semantics of a Rust #[test] returning Result; the how-to does not discuss this shape)",
         ],
     )
 
